@@ -148,6 +148,29 @@ func main() {
 							emit(fn, "bound", b.OpPos, b.OpPos+token.Pos(len(b.Op.String())), repl)
 						})
 					}
+					txt := func(a, b token.Pos) string { return string(src[off(a):off(b)]) }
+					if want["ifinvert"] && s.Init == nil {
+						// if c {A} else {B}  ->  if !(c) {B} else {A}
+						if eb, ok := s.Else.(*ast.BlockStmt); ok {
+							emit(fn, "ifinvert", s.Cond.Pos(), eb.End(), "!("+txt(s.Cond.Pos(), s.Cond.End())+") "+txt(eb.Pos(), eb.End())+" else "+txt(s.Body.Pos(), s.Body.End()))
+						}
+					}
+					if want["andsplit"] && s.Init == nil && s.Else == nil {
+						// if a && b {A}  ->  if a { if b {A} }
+						if be, ok := s.Cond.(*ast.BinaryExpr); ok && be.Op == token.LAND {
+							emit(fn, "andsplit", s.Cond.Pos(), s.Body.End(), txt(be.X.Pos(), be.X.End())+" { if "+txt(be.Y.Pos(), be.Y.End())+" "+txt(s.Body.Pos(), s.Body.End())+" }")
+						}
+					}
+					if want["demorgan"] {
+						// a || b  ->  !(!(a) && !(b)) ; a && b -> !(!(a) || !(b))
+						if be, ok := s.Cond.(*ast.BinaryExpr); ok && (be.Op == token.LOR || be.Op == token.LAND) {
+							other := "&&"
+							if be.Op == token.LAND {
+								other = "||"
+							}
+							emit(fn, "demorgan", s.Cond.Pos(), s.Cond.End(), "!(!("+txt(be.X.Pos(), be.X.End())+") "+other+" !("+txt(be.Y.Pos(), be.Y.End())+"))")
+						}
+					}
 				case *ast.ForStmt:
 					if want["bound"] && s.Cond != nil {
 						boundMuts(s.Cond, func(b *ast.BinaryExpr, repl string) {
